@@ -91,9 +91,30 @@ theorem AbsStop.ptrStop {rest : Toks} (h : AbsStop rest) : PtrStop rest := by
   | nil => trivial
   | cons t ts => exact ⟨h.1, h.2.1, h.2.2.1⟩
 
+theorem declStarts_WFD (env : Env) (d : Declarator) (hwf : WFD env d) (rest : Toks) :
+    declStarts env (d.toks false ++ rest) = true := by
+  cases d with
+  | leaf ps name =>
+    cases ps with
+    | cons p ps' =>
+      obtain ⟨k, c, v⟩ := p
+      cases k <;> simp [Declarator.toks, ptrsToks, Ptr.toks, declStarts, tk]
+    | nil =>
+      cases name with
+      | none => exact absurd rfl hwf
+      | some n =>
+        obtain ⟨hc, hu, _⟩ := hwf
+        simp [Declarator.toks, ptrsToks, declStarts, nameTok, hc, hu]
+  | wrap ps i =>
+    cases ps with
+    | cons p ps' =>
+      obtain ⟨k, c, v⟩ := p
+      cases k <;> simp [Declarator.toks, ptrsToks, Ptr.toks, declStarts, tk]
+    | nil => simp [Declarator.toks, ptrsToks, declStarts, tk]
+
 theorem declarator_print (env : Env) : ∀ (dr : Declarator) (rest : Toks) (n : Nat),
     WFD env dr → (dr.named = false → AbsStop rest) → n > dr.depth →
-    declarator n (dr.toks false ++ rest) = .ok (some dr, rest) := by
+    declarator env n (dr.toks false ++ rest) = .ok (some dr, rest) := by
   intro dr
   induction dr with
   | leaf ps name =>
@@ -135,7 +156,8 @@ theorem declarator_print (env : Env) : ∀ (dr : Declarator) (rest : Toks) (n : 
     unfold declarator
     rw [hp]
     have e1 : (tk Kind.LPAREN "(").typ = .LPAREN := rfl
-    simp only [e1, hi]
+    have hst := declStarts_WFD env inner wf (tk .RPAREN ")" :: rest)
+    simp only [e1, hst, hi]
     simp [mustbe, tk]
 
 /-! ### declaration specifiers -/
@@ -468,10 +490,10 @@ theorem attribute_print : ∀ (attrs acc : List (Str × AttrVal)) (rest : Toks) 
       simp only [have?, tk, if_true, mustbe, nameTok, hc, Res.bind_ok]
       generalize hts : attrsToks as ++ rest = ts at hnext hi
       cases ts with
-      | nil => simp [have?, hset, hi]
+      | nil => simp [have?, h1, hset, hi]
       | cons t ts' =>
         obtain ⟨n1, n2⟩ := hnext
-        simp [have?, n1, n2, hset, hi]
+        simp [have?, h1, n1, n2, hset, hi]
     | text parts =>
       obtain ⟨hc, h1, h2, hb⟩ := hk
       simp only [attrsToks, h1, h2, or_self, if_false, AttrVal.toks, List.append_assoc, List.cons_append,
@@ -479,7 +501,7 @@ theorem attribute_print : ∀ (attrs acc : List (Str × AttrVal)) (rest : Toks) 
       rw [attributeP]
       have hsc := attrScan_print k parts 1 (attrsToks as ++ rest) hb
       simp only [tk] at hsc
-      simp only [have?, tk, if_true, mustbe, nameTok, hc, Res.bind_ok, hsc, hset, hi]
+      simp only [have?, tk, if_true, mustbe, nameTok, hc, Res.bind_ok, h1, if_false, hsc, hset, hi]
       simp
 
 /-! ### declarations -/
@@ -597,7 +619,7 @@ theorem Decl.toks_eq (s : Spec) (dr : Option Declarator) (params : Option (List 
   | none => simp [Decl.toks]
   | some ps => cases ps <;> simp [Decl.toks, paramsInner]
 
-theorem declarator_abs_none (m : Nat) (ts : Toks) (h : Hd K4 ts) : declarator (m + 1) ts = .ok (none, ts) := by
+theorem declarator_abs_none (env : Env) (m : Nat) (ts : Toks) (h : Hd K4 ts) : declarator env (m + 1) ts = .ok (none, ts) := by
   have hp : pointer ts = ([], ts) := by
     have := pointer_print [] ts (Hd_K4_cases (env := default) h).2.1.ptrStop
     simpa [ptrsToks] using this
@@ -617,7 +639,7 @@ theorem declaration_step (env : Env) (s : Spec) (dr : Option Declarator) (params
     (hpar : match params with | none => fc = false | some _ => ∃ d, dr = some d ∧ d.named = true)
     (hrest : DeclFollow rest)
     (hm : m ≥ (Decl.mk s dr params fc arr attrs none).toks.length + 8)
-    (HP : ∀ ps, params = some ps → ∃ ps', (if isVoidOnly ps' then [] else ps') = ps ∧
+    (HP : ∀ ps, params = some ps → ∃ ps', isDecoratedVoid ps' = false ∧ (if isVoidOnly ps' then [] else ps') = ps ∧
             ∀ X, paramList env m [] (paramsInner ps ++ tk .RPAREN ")" :: X) = .ok (ps', X)) :
     declaration env (m + 1) ((Decl.mk s dr params fc arr attrs none).toks ++ rest)
       = .ok (.mk s dr params fc arr attrs none, rest) := by
@@ -661,7 +683,7 @@ theorem declaration_step (env : Env) (s : Spec) (dr : Option Declarator) (params
       obtain ⟨m', rfl⟩ : ∃ m', m = m' + 1 := ⟨m - 1, by omega⟩
       rw [declSpec_print env s _ _ hs k1 (by omega), Res.bind_ok]
       simp only []
-      rw [declarator_abs_none m' _ hT4, Res.bind_ok]
+      rw [declarator_abs_none env m' _ hT4, Res.bind_ok]
       simp only []
       simp only [Res.bind_ok, h4, h5, h6]
     | some d =>
@@ -676,7 +698,7 @@ theorem declaration_step (env : Env) (s : Spec) (dr : Option Declarator) (params
       simp only [Res.bind_ok, h4, h5, h6]
   | some ps =>
     obtain ⟨d, rfl, hnamed⟩ := hpar
-    obtain ⟨ps', hps', hpl⟩ := HP ps rfl
+    obtain ⟨ps', hdv, hps', hpl⟩ := HP ps rfl
     have hwd := hd d rfl
     have hdl := d.depth_le
     simp only [List.length_cons, List.length_append] at hm ⊢
@@ -688,7 +710,7 @@ theorem declaration_step (env : Env) (s : Spec) (dr : Option Declarator) (params
     have hpl' := hpl (fcToks fc ++ (arraysToks arr ++ (attrsToks attrs ++ rest)))
     simp only [tk] at hpl'
     rw [hpl', Res.bind_ok]
-    simp only [hps']
+    simp only [hdv, Bool.false_eq_true, if_false, hps']
     obtain ⟨k1, k2, k3, k4⟩ := Hd_K4_cases (env := env) hT4
     cases fc with
     | true =>
@@ -853,6 +875,20 @@ theorem paramList_print (env : Env) : ∀ (ps : List Decl) (p : Decl) (m : Nat) 
         · rename_i hh; exact absurd (by simpa using hh) h2r
         · simp [hi']
 
+theorem decorated_imp_voidOnly (ps : List Decl) (h : isVoidOnly ps = false) : isDecoratedVoid ps = false := by
+  cases ps with
+  | nil => rfl
+  | cons p t =>
+    cases t with
+    | cons _ _ => obtain ⟨_, dr, _, _, _, _, _⟩ := p; cases dr <;> rfl
+    | nil =>
+      obtain ⟨sp', dr, _, _, _, _, _⟩ := p
+      cases dr with
+      | some _ => rfl
+      | none =>
+        simp only [isVoidOnly] at h
+        simp only [isDecoratedVoid, h, Bool.false_and]
+
 theorem roundtrip_all (env : Env) (hv : EnvVoid env) : ∀ d, WF env d → RT env d := by
   intro d
   induction d using Decl.induct with
@@ -872,7 +908,9 @@ theorem roundtrip_all (env : Env) (hv : EnvVoid env) : ∀ d, WF env d → RT en
       cases ps with
       | nil =>
         obtain ⟨tm, htm⟩ := hv
-        refine ⟨[.mk (.mk [sp "void"] [] false false [] tm) none none false [] [] none], by simp [isVoidOnly, Spec.specifier, sp], ?_⟩
+        refine ⟨[.mk (.mk [sp "void"] [] false false [] tm) none none false [] [] none],
+          by simp [isDecoratedVoid, Spec.specifier, Spec.const, Spec.volatile, Spec.storage],
+          by simp [isVoidOnly, Spec.specifier, sp], ?_⟩
         intro X
         have hm' : m ≥ 11 := by
           rw [Decl.toks_eq] at hm
@@ -900,7 +938,7 @@ theorem roundtrip_all (env : Env) (hv : EnvVoid env) : ∀ d, WF env d → RT en
         rw [paramList]
         simp [paramsInner, peekTyp, tk, hstep, have?, mustbe, Decl.shallowName]
       | cons p ps' =>
-        refine ⟨p :: ps', by simp [hvo], ?_⟩
+        refine ⟨p :: ps', decorated_imp_voidOnly _ hvo, by simp [hvo], ?_⟩
         intro X
         simp only [paramsInner]
         apply paramList_print env ps' p m X []
